@@ -213,6 +213,15 @@ class Linker:
             offset = output_section.size
             section_offsets[input_section.name] = offset
             output_section.add_data(input_section.data)
+
+            # Remember what is aligned, for the relaxation phase:
+            output_section.aligned_points.append(
+                (offset, input_section.alignment)
+            )
+            for point, alignment in input_section.aligned_points:
+                output_section.aligned_points.append(
+                    (offset + point, alignment)
+                )
             self.logger.debug(
                 "at offset 0x%x section %s",
                 section_offsets[input_section.name],
@@ -442,10 +451,6 @@ class Linker:
 
         self.logger.debug("Doing linker relaxations")
 
-        # TODO: general note. Alignment must still be taken into account.
-        # A wrong situation occurs, when reducing the image by small amount
-        # of bytes. Locations that were aligned before, might become unaligned.
-
         # First, determine the list of possible optimizations!
         lst = []
         for relocation in self.dst.relocations:
@@ -482,6 +487,7 @@ class Linker:
                 lst.append((hole, relocation, reloc, new_relocs, data))
 
         lst = self._drop_stretching_relaxations(lst)
+        lst = self._drop_misaligning_relaxations(lst)
 
         if not lst:
             self.logger.debug("No linker relaxations found")
@@ -576,6 +582,56 @@ class Linker:
             new_lst.append(candidate)
         return new_lst
 
+    def _drop_misaligning_relaxations(self, lst):
+        """Drop relaxations such that what was aligned stays aligned.
+
+        Everything behind a removed byte moves down. The start of a section
+        and the aligned points in a section stay aligned when the amount of
+        bytes removed in front of them is a multiple of their alignment.
+        """
+        candidates = defaultdict(list)
+        for candidate in lst:
+            candidates[candidate[1].section].append(candidate)
+
+        # The sections in an image move as one, other sections do not move.
+        runs = [image.sections for image in self.dst.images]
+        placed = {section.name for run in runs for section in run}
+        for section in self.dst.sections:
+            if section.name not in placed:
+                runs.append([section])
+
+        kept = []
+        for run in runs:
+            # Walk the run from low to high address. An event is either an
+            # aligned location or a relaxation candidate:
+            events = []
+            for section in run:
+                events.append((section.alignment, None))
+                points = [(o, 0, (a, None)) for o, a in section.aligned_points]
+                for candidate in candidates[section.name]:
+                    points.append((candidate[0][0], 1, (None, candidate)))
+                points.sort(key=lambda x: x[:2])
+                events.extend(p[2] for p in points)
+
+            removed = 0
+            taken = []  # index and bytes removed in front of taken candidates
+            index = 0
+            while index < len(events):
+                alignment, candidate = events[index]
+                if candidate:
+                    taken.append((index, removed))
+                    removed += candidate[0][1]
+                elif removed % alignment != 0:
+                    # Give up the nearest relaxation, and proceed after it.
+                    index, removed = taken.pop()
+                    self.logger.debug("Not relaxing %s", events[index][1][1])
+                    events[index] = (1, None)
+                index += 1
+            kept.extend(events[index][1] for index, _ in taken)
+
+        kept = {id(candidate) for candidate in kept}
+        return [c for c in lst if id(c) in kept]
+
     def _apply_relaxation_holes(self, hole_map):
         """Punch holes in the destination object file.
 
@@ -624,9 +680,14 @@ class Linker:
 
         # Update section data:
         for section in self.dst.sections:
+            holes = hole_map[section.name]
+            section.aligned_points = [
+                (offset - count_holes(offset, holes), alignment)
+                for offset, alignment in section.aligned_points
+            ]
+
             # Loop over holes in reverse, since earlier holes influence later
             # holes.
-            holes = hole_map[section.name]
             for hole_offset, hole_size in reversed(holes):
                 for _ in range(hole_size):
                     section.data.pop(hole_offset)
@@ -646,9 +707,9 @@ class Linker:
                     section.address,
                     delta,
                 )
-                # TODO: tricky stuff might go wrong here with alignment
-                # requirements of sections.
-                # Idea: re-do the layout phase?
+                # Note that the relaxations were selected such that the
+                # section stays aligned.
+                assert delta % section.alignment == 0
                 section.address -= delta
                 delta += section_changes[section.name]
 
